@@ -377,7 +377,7 @@ func (x *Exec) wf(st *State, t Term, typ types.Type) {
 		}
 	case *types.Slice:
 		if !isLiteral(t) {
-			x.vc.assert(Term{fmt.Sprintf("(and (<= 0 (s-arr %[1]s)) (<= 0 (s-off %[1]s)) (<= 0 (s-len %[1]s)) (<= (s-len %[1]s) (s-cap %[1]s)) (=> (= (s-arr %[1]s) 0) (= (s-cap %[1]s) 0)))", t.S), SBool})
+			x.vc.assert(Term{fmt.Sprintf("(and (<= 0 (s-arr %[1]s)) (= 0 (s-off %[1]s)) (<= 0 (s-len %[1]s)) (<= (s-len %[1]s) (s-cap %[1]s)) (=> (= (s-arr %[1]s) 0) (= (s-cap %[1]s) 0)))", t.S), SBool})
 		}
 	case *types.Pointer, *types.Map:
 		if !isLiteral(t) {
@@ -906,6 +906,12 @@ func (x *Exec) localValue(fr *Frame, st *State, v *types.Var) Term {
 				k := cellKey{fr.id, a}
 				if t, ok := st.cells[k]; ok {
 					return t
+				}
+				// not yet spilled in this state (function entry): a parameter's own value
+				for _, p := range fr.fn.Params {
+					if p.Object() != nil && p.Object().Pos() == v.Pos() {
+						return fr.regs[p]
+					}
 				}
 				return x.vc.zero(v.Type())
 			}
